@@ -179,6 +179,13 @@ func (c *mtastsDelivery) CheckMX(ctx context.Context, mxLevel module.MXLevel, do
 		return module.MXNone, nil
 	}
 	policy := policyI.(*mtasts.Policy)
+	if policy == nil {
+		// The cache returns neither a policy nor an error when a policy it
+		// has just fetched cannot be stored and nothing is cached. As for
+		// any other failure to get one: no policy.
+		c.log.DebugMsg("MTA-STS error", "err", "no policy returned")
+		return module.MXNone, nil
+	}
 
 	if !policy.Match(mx) {
 		if policy.Mode == mtasts.ModeEnforce {
@@ -202,7 +209,7 @@ func (c *mtastsDelivery) CheckConn(ctx context.Context, mxLevel module.MXLevel, 
 	}
 	policy := policyI.(*mtasts.Policy)
 
-	if policy.Mode != mtasts.ModeEnforce {
+	if policy == nil || policy.Mode != mtasts.ModeEnforce {
 		return module.TLSNone, nil
 	}
 
